@@ -721,8 +721,9 @@ pub mod decode {
             }
             ACPI2 => {
                 utf8(&mut v, "signature", t, 8, 8);
-                let len = (rd32(t, 28) as usize).min(36);
-                u(&mut v, "checksum_is_valid", (t[8..8 + len].iter().fold(0u8, |a, b| a.wrapping_add(*b)) == 0) as u64);
+                // a stored length above the 36 bytes the tag holds cannot be summed inside the tag: not valid
+                let len = rd32(t, 28) as usize;
+                u(&mut v, "checksum_is_valid", (len <= 36 && t[8..8 + len].iter().fold(0u8, |a, b| a.wrapping_add(*b)) == 0) as u64);
                 utf8(&mut v, "oem_id", t, 17, 6);
                 u(&mut v, "revision", t[23] as u64);
                 u(&mut v, "xsdt_address", rd64(t, 32));
